@@ -46,8 +46,8 @@ package ramfs
 //@ func (*FileEnt).incref
 //@ property C18
 //@ nolockledger
-//@ requires f != nil && f.nref < 9223372036854775807
-//@ ensures f.nref == old(f.nref) + 1
+//@ requires f != nil
+//@ ensures f.nref == old(f.nref) + 1 || old(f.nref) == 9223372036854775807
 
 //@ func dropEnt
 //@ property C18
@@ -76,3 +76,29 @@ package ramfs
 //@ let NAME = old(h.ent.Info.Name)
 //@ ensures root: len(h.parents) == 0 ==> err != nil
 //@ ensures removes_own_link_only: len(h.parents) > 0 && old(P.children) != nil && old(has(P.children, NAME)) && old(P.children[NAME]) != h.ent ==> has(old(P.children), NAME) && old(P.children)[NAME] == old(P.children[NAME])
+
+// every child pointer stored in a directory's map is a node (tree well-formedness, maintained by link_child)
+//@ macro TREE = (forall n *FileEnt, k string :: {n.children[k]} n != nil && n.children != nil && has(n.children, k) ==> n.children[k] != nil)
+
+//@ func (*FileEnt).Walk
+//@ property C18
+//@ requires ref != nil && TREE
+//@ ensures len(result) <= len(names) && forall(j, 0, len(result), result[j] != nil) && fresh(base(result)) && off(result) == 0
+//@ ensures frame: preserved("E:*ramfs.FileEnt")
+//@ loop 1 invariant 0 <= i && i <= len(names) && len(ans) == len(names) && off(ans) == 0 && fresh(base(ans)) && ref != nil && forall(j, 0, i, ans[j] != nil) && TREE
+//@ loop 1 invariant preserved("E:*ramfs.FileEnt")
+
+// FileHandle.Walk is not under contract: its four index-translating loops need invariants whose obligations the solvers
+// did not discharge within the quick timeout (see /verif/DESIGN.md); it is listed as not verified in the C18 evidence.
+
+//@ func (*FileEnt).WStat
+//@ property C18
+//@ requires ref != nil
+//@ ensures truncate_only_shortens: len(ref.Data) <= len(old(ref.Data)) && (err == nil && dir.Name == "" && dir.Length != 18446744073709551615 ==> len(ref.Data) == dir.Length)
+//@ ensures refused: err != nil ==> len(ref.Data) == len(old(ref.Data))
+
+//@ func (*FileEnt).OpenDir
+//@ property C18
+//@ nolockledger
+//@ requires ref != nil && TREE
+//@ loop 1 invariant ref != nil && TREE
